@@ -584,6 +584,20 @@ func Run(r *core.Run) {
 	r.Set("spec_vs_native_runs_compared", specCompared)
 	r.Set("spec_unpredicted_runs", unpredicted)
 	r.Set("programs_with_spec_drift", driftProgs)
+	objFam := map[string]int{}
+	for f := range famSeen {
+		switch {
+		case strings.HasPrefix(f, "d_"):
+			objFam["definitions_over_base_shapes"]++
+		case strings.HasPrefix(f, "s_"):
+			objFam["copies_over_adversarial_sources"]++
+		case strings.HasPrefix(f, "t_"):
+			objFam["error_timing_cause_x_form"]++
+		case f == "a_then" || f == "a_retthen" || f == "a_forawait_then":
+			objFam["thenables"]++
+		}
+	}
+	r.Set("object_model_constructs_seen", objFam)
 	fams := make([]string, 0, len(famSeen))
 	for f := range famSeen {
 		fams = append(fams, f)
